@@ -198,7 +198,7 @@ fn grammar(target: &'static str) -> BoxedStrategy<Vec<u8>> {
     }
 }
 
-fn cases_for(target: &'static str) -> BoxedStrategy<Case> {
+pub fn cases_for(target: &'static str) -> BoxedStrategy<Case> {
     let mk = move |source: &'static str| move |d: Vec<u8>| Case { target: target.to_string(), data: B(d), source: source.to_string() };
     prop_oneof![
         2 => arbitrary_bytes().prop_map(mk("arbitrary")),
@@ -292,10 +292,11 @@ pub fn property() -> Property {
             target_stream!("pkgdb", 1_500, 40_000),
             target_stream!("summary_ops", 20_000, 600_000),
             enumerated_stream("fixture-prefixes", "every prefix of the repository's fixtures at every entry point that reads them", prefixes, check),
+            crate::fuzz::replay_stream(),
         ],
         selfcheck: || Ok(()),
         hang_is_violation: true,
         min_nontrivial_share: 0.2,
-        extra: None,
+        extra: Some(crate::fuzz::extra),
     }
 }
